@@ -1,0 +1,233 @@
+//go:build verif
+
+/*
+ Licensed to the Apache Software Foundation (ASF) under one
+ or more contributor license agreements.  See the NOTICE file
+ distributed with this work for additional information
+ regarding copyright ownership.  The ASF licenses this file
+ to you under the Apache License, Version 2.0 (the
+ "License"); you may not use this file except in compliance
+ with the License.  You may obtain a copy of the License at
+
+     http://www.apache.org/licenses/LICENSE-2.0
+
+ Unless required by applicable law or agreed to in writing, software
+ distributed under the License is distributed on an "AS IS" BASIS,
+ WITHOUT WARRANTIES OR CONDITIONS OF ANY KIND, either express or implied.
+ See the License for the specific language governing permissions and
+ limitations under the License.
+*/
+
+package objects
+
+import (
+	"time"
+
+	"github.com/google/btree"
+
+	"github.com/apache/yunikorn-core/pkg/common/configs"
+	"github.com/apache/yunikorn-core/pkg/common/resources"
+	"github.com/apache/yunikorn-core/pkg/common/security"
+	"github.com/apache/yunikorn-core/pkg/scheduler/policies"
+	"github.com/apache/yunikorn-scheduler-interface/lib/go/si"
+)
+
+// Verification hooks (build tag "verif" only) for the sorters, the sorted ask list and the node
+// collection: build real Queue / Application objects from plain data, call the unexported sort
+// functions, and read the cached node scores. Nothing here changes behaviour.
+
+// VerifSortQueueSpec is the plain data a sibling queue is built from.
+type VerifSortQueueSpec struct {
+	Name            string
+	Fence           bool // priority policy fence (default otherwise)
+	PriorityOffset  int32
+	CurrentPriority int32
+	Allocated       *resources.Resource
+	Guaranteed      *resources.Resource
+	Pending         *resources.Resource
+	Max             *resources.Resource
+	Stopped         bool
+}
+
+func verifSortApplyQueueSpec(q *Queue, s VerifSortQueueSpec) {
+	q.Lock()
+	defer q.Unlock()
+	if s.Fence {
+		q.priorityPolicy = policies.FencePriorityPolicy
+	} else {
+		q.priorityPolicy = policies.DefaultPriorityPolicy
+	}
+	q.priorityOffset = s.PriorityOffset
+	q.currentPriority = s.CurrentPriority
+	q.allocatedResource = s.Allocated
+	q.guaranteedResource = s.Guaranteed
+	q.pending = s.Pending
+	q.maxResource = s.Max
+	if s.Stopped {
+		q.stateMachine.SetState(Stopped.String())
+	}
+}
+
+// VerifSortNewFamily builds root -> parent -> children (leafs) with the real constructors and then
+// sets the sort keys from the specs. rootMax / parentMax may be nil.
+func VerifSortNewFamily(rootMax, parentMax *resources.Resource, sortType policies.SortPolicy, prioritySort bool, children []VerifSortQueueSpec) (*Queue, []*Queue, error) {
+	root, err := NewConfiguredQueue(configs.QueueConfig{Name: "root", Parent: true}, nil, true, nil)
+	if err != nil {
+		return nil, nil, err
+	}
+	root.maxResource = rootMax
+	parent, err := NewConfiguredQueue(configs.QueueConfig{Name: "parent", Parent: true}, root, true, nil)
+	if err != nil {
+		return nil, nil, err
+	}
+	parent.maxResource = parentMax
+	parent.sortType = sortType
+	parent.prioritySortEnabled = prioritySort
+	out := make([]*Queue, 0, len(children))
+	for _, s := range children {
+		var q *Queue
+		q, err = NewConfiguredQueue(configs.QueueConfig{Name: s.Name}, parent, true, nil)
+		if err != nil {
+			return nil, nil, err
+		}
+		verifSortApplyQueueSpec(q, s)
+		out = append(out, q)
+	}
+	return parent, out, nil
+}
+
+// VerifSortQueueSlice calls the real sortQueue on the slices (sorted in place).
+func VerifSortQueueSlice(queues []*Queue, fairMax []*resources.Resource, sortType policies.SortPolicy, considerPriority bool) {
+	sortQueue(queues, fairMax, sortType, considerPriority)
+}
+
+// VerifSortQueuesOf calls the real Queue.sortQueues of a parent queue.
+func VerifSortQueuesOf(parent *Queue) []*Queue { return parent.sortQueues() }
+
+// VerifSortAppSpec is the plain data an application is built from.
+type VerifSortAppSpec struct {
+	ID              string
+	Allocated       *resources.Resource
+	Pending         *resources.Resource
+	AskMaxPriority  int32
+	SubmissionNanos int64
+}
+
+func VerifSortNewApp(s VerifSortAppSpec) *Application {
+	app := NewApplication(&si.AddApplicationRequest{ApplicationID: s.ID, QueueName: "root.parent.leaf", PartitionName: "default"},
+		security.UserGroup{User: "verif", Groups: []string{"verif"}}, nil, "")
+	app.allocatedResource = s.Allocated
+	app.pending = s.Pending
+	app.askMaxPriority = s.AskMaxPriority
+	app.submissionTime = time.Unix(0, s.SubmissionNanos)
+	return app
+}
+
+// VerifSortAppsBy calls one of the four application sorters on the slice (sorted in place):
+// 0 fairness+priority, 1 priority+fairness, 2 submission time+priority, 3 priority+submission time.
+func VerifSortAppsBy(which int, apps []*Application, global *resources.Resource) {
+	switch which {
+	case 0:
+		sortApplicationsByFairnessAndPriority(apps, global)
+	case 1:
+		sortApplicationsByPriorityAndFairness(apps, global)
+	case 2:
+		sortApplicationsBySubmissionTimeAndPriority(apps)
+	case 3:
+		sortApplicationsByPriorityAndSubmissionTime(apps)
+	}
+}
+
+// VerifSortApplications calls the real sortApplications (filter on pending + policy dispatch).
+func VerifSortApplications(apps map[string]*Application, sortType policies.SortPolicy, considerPriority bool, global *resources.Resource) []*Application {
+	return sortApplications(apps, sortType, considerPriority, global)
+}
+
+// VerifSortNewLeaf builds a leaf queue holding the applications; VerifSortAppsOfLeaf calls the
+// real Queue.sortApplications on it.
+func VerifSortNewLeaf(sortType policies.SortPolicy, prioritySort bool, guaranteed *resources.Resource, apps []*Application) (*Queue, error) {
+	root, err := NewConfiguredQueue(configs.QueueConfig{Name: "root", Parent: true}, nil, true, nil)
+	if err != nil {
+		return nil, err
+	}
+	leaf, err := NewConfiguredQueue(configs.QueueConfig{Name: "leaf"}, root, true, nil)
+	if err != nil {
+		return nil, err
+	}
+	leaf.sortType = sortType
+	leaf.prioritySortEnabled = prioritySort
+	leaf.guaranteedResource = guaranteed
+	for _, a := range apps {
+		leaf.applications[a.ApplicationID] = a
+	}
+	return leaf, nil
+}
+
+func VerifSortAppsOfLeaf(leaf *Queue) []*Application { return leaf.sortApplications(false) }
+
+// VerifSortRequests wraps a sortedRequests slice.
+type VerifSortRequests struct{ s sortedRequests }
+
+func verifSortAsk(key string, priority int32, createNanos int64) *Allocation {
+	return &Allocation{allocationKey: key, priority: priority, createTime: time.Unix(0, createNanos)}
+}
+func (v *VerifSortRequests) Insert(key string, priority int32, createNanos int64) {
+	v.s.insert(verifSortAsk(key, priority, createNanos))
+}
+func (v *VerifSortRequests) Remove(key string) { v.s.remove(verifSortAsk(key, 0, 0)) }
+func (v *VerifSortRequests) Keys() []string {
+	out := make([]string, 0, len(v.s))
+	for _, a := range v.s {
+		out = append(out, a.allocationKey)
+	}
+	return out
+}
+
+// VerifSortLessThan calls Allocation.LessThan on two asks built from the keys.
+func VerifSortLessThan(p1 int32, t1 int64, p2 int32, t2 int64) bool {
+	return verifSortAsk("l", p1, t1).LessThan(verifSortAsk("r", p2, t2))
+}
+
+// VerifSortRef is one entry of the sorted node view.
+type VerifSortRef struct {
+	NodeID string
+	Score  float64
+}
+
+// VerifSortCached returns the cached score per registered node (the map view).
+func VerifSortCached(c NodeCollection) map[string]float64 {
+	nc := c.(*baseNodeCollection) //nolint:errcheck
+	nc.RLock()
+	defer nc.RUnlock()
+	out := make(map[string]float64, len(nc.nodes))
+	for id, ref := range nc.nodes {
+		out[id] = ref.nodeScore
+	}
+	return out
+}
+
+// VerifSortTree returns the content of the sorted view in ascending order.
+func VerifSortTree(c NodeCollection) []VerifSortRef {
+	nc := c.(*baseNodeCollection) //nolint:errcheck
+	nc.RLock()
+	defer nc.RUnlock()
+	out := make([]VerifSortRef, 0, nc.sortedNodes.Len())
+	nc.sortedNodes.Ascend(func(item btree.Item) bool {
+		if ref, ok := item.(nodeRef); ok {
+			out = append(out, VerifSortRef{NodeID: ref.node.NodeID, Score: ref.nodeScore})
+		}
+		return true
+	})
+	return out
+}
+
+// VerifSortScore recomputes the score of the node under the current policy of the collection.
+func VerifSortScore(c NodeCollection, node *Node) float64 {
+	nc := c.(*baseNodeCollection) //nolint:errcheck
+	nc.RLock()
+	defer nc.RUnlock()
+	return nc.scoreNode(node)
+}
+
+// VerifSortUnreserve calls the unexported Node.unReserve.
+func VerifSortUnreserve(node *Node, alloc *Allocation) int { return node.unReserve(alloc) }
